@@ -8,14 +8,16 @@ subset of them chosen by a seeded tape.
 Where the statement of C17 does not claim invariance no *claimed* point is placed; a few of those
 places are kept as *probe* categories (reported, never judged):
   - inside a component's braces `{...}` (quantity syntax is not "words")           probe: brace
-  - inside a metadata key (between `>>` and `:`) or inside the `>>` marker             probe: meta_key
+  - inside the `>>` marker                                                               (excluded)
   - inside the YAML front matter, before it, and on its fence lines for comments         (excluded)
   - directly after a backslash (the next character is escaped, a comment cannot start)   (excluded)
   - inside an existing comment                                                          (excluded)
   - between the lines of a multi-line step or paragraph for extra_lines (a blank line there
     *is* a block separator)                                                             (excluded)
-  - the blank-on-both-sides comment variant outside step/paragraph text (names, notes,
-    metadata values would get a double blank)                              probe: name_spaced, value_spaced
+  - the blank-on-both-sides comment variant inside a metadata VALUE (the value keeps both
+    blanks: "A [- c -] b" reads "A  b")                                    probe: value_spaced
+The blank-on-both-sides variant between the words of component names, aliases, notes, section names and
+metadata keys IS judged (edit name_comment_spaced): those are words, and the result must be equal exactly.
 """
 import re
 import unicodedata
@@ -216,7 +218,7 @@ def _scan_step(P, toks, ext):
                 for a, b, c in zip(name, name[1:], name[2:]):
                     if a[0] in WORDLIKE and b[0] == "ws" and c[0] in WORDLIKE:
                         P.add(P.after_word, "comp_name", a[3])
-                        P.add(P.at_blank, "probe_name_spaced", b[3])
+                        P.add(P.at_blank, "comp_name", b[3])
                 inner = toks[stop + 1:close]
                 for a, b in zip(inner, inner[1:]):
                     if a[0] in WORDLIKE and b[0] == "ws":
@@ -243,6 +245,7 @@ def _scan_step(P, toks, ext):
                 for a, b, c in zip(note, note[1:], note[2:]):
                     if a[0] in WORDLIKE and b[0] == "ws" and c[0] in WORDLIKE:
                         P.add(P.after_word, "note", a[3])
+                        P.add(P.at_blank, "note", b[3])
                 end = close + 1
         flush()
         i = end
@@ -312,7 +315,8 @@ def points(text, ext):
             key = btoks[1:colon]
             for a, b, c in zip(key, key[1:], key[2:]):
                 if a[0] in WORDLIKE and b[0] == "ws" and c[0] in WORDLIKE:
-                    P.add(P.after_word, "probe_meta_key", a[3])
+                    P.add(P.after_word, "meta_key", a[3])
+                    P.add(P.at_blank, "meta_key", b[3])
             val = btoks[colon + 1:]
             for a, b, c in zip(val, val[1:], val[2:]):
                 if a[0] in WORDLIKE and b[0] == "ws" and c[0] in WORDLIKE:
@@ -323,6 +327,7 @@ def points(text, ext):
             for a, b, c in zip(name, name[1:], name[2:]):
                 if a[0] in WORDLIKE and b[0] == "ws" and c[0] in WORDLIKE:
                     P.add(P.after_word, "section_name", a[3])
+                    P.add(P.at_blank, "section_name", b[3])
         elif kind == "textblock":
             _scan_words(P, btoks, "paragraph_text", "paragraph_text", nl_ok=True)
         else:
@@ -374,7 +379,12 @@ def trail_space(text, P, rng, mode):
     return _apply(text, [(o, rng.choice(BLANKS)) for o in pts]), len(pts)
 
 
-CLAIMED_AFTER = ("step_text", "paragraph_text", "meta_value", "section_name", "comp_name", "note", "after_single_comp")
+CLAIMED_AFTER = ("step_text", "paragraph_text", "meta_value", "meta_key", "section_name", "comp_name", "note",
+                 "after_single_comp")
+# the blank-on-both-sides variant between the words of a name: component names and aliases, notes, section
+# names, metadata keys are read through Text::text_trimmed, which collapses the double blank, so the recipe is
+# unchanged exactly (metadata VALUES keep both blanks and stay a probe)
+NAME_SPACED = ("comp_name", "note", "section_name", "meta_key")
 
 
 def mid_comment(text, P, rng, mode, cats=CLAIMED_AFTER):
@@ -397,10 +407,14 @@ def extra_lines(text, P, rng, mode):
     return _apply(text, ins), len(pts)
 
 
+def name_comment_spaced(text, P, rng, mode):
+    return mid_comment_spaced(text, P, rng, mode, cats=NAME_SPACED)
+
+
 EDITS = {"trail_comment": trail_comment, "trail_space": trail_space, "mid_comment": mid_comment,
-         "mid_comment_spaced": mid_comment_spaced, "extra_lines": extra_lines}
-PROBES = {"probe_brace": ("after", "probe_brace"), "probe_meta_key": ("after", "probe_meta_key"),
-          "probe_name_spaced": ("blank", "probe_name_spaced"), "probe_value_spaced": ("blank", "probe_value_spaced")}
+         "mid_comment_spaced": mid_comment_spaced, "name_comment_spaced": name_comment_spaced,
+         "extra_lines": extra_lines}
+PROBES = {"probe_brace": ("after", "probe_brace"), "probe_value_spaced": ("blank", "probe_value_spaced")}
 
 
 def probe(text, P, rng, name):
